@@ -165,44 +165,48 @@ def assignments(shared_opt_l, shared_opt_r):
                     yield dl, dr, al, ar
 
 
+def eval_merge_pair(l, r, st):
+    kl, kr = dict((p[0], p[1]) for p in l), dict((p[0], p[1]) for p in r)
+    # by name: the same name never sits at two different positional indexes, and is never positional-only on
+    # one side while keyword-only on the other (those are unrelated parameters)
+    aligned = space.name_aligned([l, r]) and not any(
+        n in kr and {kl[n], kr[n]} == {PO, KWO} for n in kl)
+    if not (aligned or role_consistent([l, r])):
+        return
+    shared = [n for n in space.names_of(l) if n in space.names_of(r) and dict((p[0], p[1]) for p in l)[n] in (PO, POK, KWO)]
+    # positions matched by index under different names also stand for each other
+    lp, rp = space.positionals(l), space.positionals(r)
+    matched = [(a[0], b[0]) for a, b in zip(lp, rp)] + [(n, n) for n in shared if n not in [p[0] for p in lp]]
+    if aligned:
+        matched = [(n, n) for n in shared]
+    if not matched:
+        return
+    st.inc('states')
+    for ln, rn in matched:
+        lo = dict((p[0], p[2]) for p in l)[ln]
+        ro = dict((p[0], p[2]) for p in r)[rn]
+        for dl, dr, al, ar in assignments(lo, ro):
+            sl = make_sig(l, {ln: dl} if lo else {}, {ln: al}, 'L')
+            sr = make_sig(r, {rn: dr} if ro else {}, {rn: ar}, 'R')
+            status, res = alg.outcome(S.merge, sl, sr)
+            st.inc('transitions')
+            if status != 'ok':
+                continue
+            st.seen('result', (l, r, alg.params_key(res)))
+
+            def viol(kind, detail, feat, sl=sl, sr=sr, res=res):
+                st.violation(kind, {'op': 'merge', 'inputs': [space.to_json(l), space.to_json(r)]},
+                             dict(detail, inputs=[str(sl), str(sr)], result=str(res)), dict(feat, arity=2))
+            check_merge([sl, sr], res, viol, by_name=aligned)
+
+
 def merge_pairs_shard(tier, sh):
     i0, i1 = sh
     st = runner.Stats()
     shapes = base_shapes()
     for l in shapes[i0:i1]:
         for r in shapes:
-            kl, kr = dict((p[0], p[1]) for p in l), dict((p[0], p[1]) for p in r)
-            # by name: the same name never sits at two different positional indexes, and is never positional-only on
-            # one side while keyword-only on the other (those are unrelated parameters)
-            aligned = space.name_aligned([l, r]) and not any(
-                n in kr and {kl[n], kr[n]} == {PO, KWO} for n in kl)
-            if not (aligned or role_consistent([l, r])):
-                continue
-            shared = [n for n in space.names_of(l) if n in space.names_of(r) and dict((p[0], p[1]) for p in l)[n] in (PO, POK, KWO)]
-            # positions matched by index under different names also stand for each other
-            lp, rp = space.positionals(l), space.positionals(r)
-            matched = [(a[0], b[0]) for a, b in zip(lp, rp)] + [(n, n) for n in shared if n not in [p[0] for p in lp]]
-            if aligned:
-                matched = [(n, n) for n in shared]
-            if not matched:
-                continue
-            st.inc('states')
-            for ln, rn in matched:
-                lo = dict((p[0], p[2]) for p in l)[ln]
-                ro = dict((p[0], p[2]) for p in r)[rn]
-                for dl, dr, al, ar in assignments(lo, ro):
-                    sl = make_sig(l, {ln: dl} if lo else {}, {ln: al}, 'L')
-                    sr = make_sig(r, {rn: dr} if ro else {}, {rn: ar}, 'R')
-                    status, res = alg.outcome(S.merge, sl, sr)
-                    st.inc('transitions')
-                    if status != 'ok':
-                        continue
-                    st.seen('result', (l, r, alg.params_key(res)))
-
-                    def viol(kind, detail, feat, sl=sl, sr=sr, res=res):
-                        st.violation(kind, {'op': 'merge', 'inputs': [space.to_json(l), space.to_json(r)]},
-                                     dict(detail, inputs=[str(sl), str(sr)], result=str(res)), dict(feat, arity=2))
-                    check_merge([sl, sr], res, viol, by_name=aligned)
+            eval_merge_pair(l, r, st)
         st.sample({'slice': 'merge pairs', 'left': show(l)}, 1)
     return st
 
@@ -358,5 +362,23 @@ def run(tier, seed):
 
 
 def replay(art):
-    return [{'note': 're-run ./vcheck C10: the case lists operation and operand shapes; values are enumerated', 'case': art['case'],
-             'detail': art['detail']}]
+    c = art['case']
+    st = runner.Stats()
+    if c['op'] == 'merge':
+        l, r = (space.from_json(x) for x in c['inputs'])
+        eval_merge_pair(l, r, st)
+    elif c['op'] == 'merge3':
+        # the triple's first operand selects the shard
+        trio = [space.from_json(x) for x in c['inputs']]
+        shapes = list(space.universe(1, 'a'))
+        st = merge_triples_shard('quick', (shapes.index(trio[0]), shapes.index(trio[0]) + 1))
+        st.viol = [v for v in st.viol if v['case'].get('inputs') == c['inputs']]
+    elif c['op'] == 'partial':
+        st = partial_shard('quick', (0, 0))
+        st.viol = [v for v in st.viol if v['case'].get('shape') == c.get('shape') and v['case'].get('name') == c.get('name')]
+    else:
+        outs = base_shapes()
+        o = space.from_json(c['inputs'][0])
+        st = embed_shard('thorough', (outs.index(o), outs.index(o) + 1))
+        st.viol = [v for v in st.viol if v['case'].get('inputs') == c['inputs'] and v['case'].get('op') == c['op']]
+    return runner.fresh_details('C10', st) or None
